@@ -86,6 +86,7 @@ type dirMember struct {
 	k      int
 	ops    string // 'E' INFO event, 'F' event of level hi, 'W' raw write, 'T' the appender takes one item
 	hi     log.Level
+	pre    int // items that have passed through the logger (submitted AND delivered) before the scenario proper starts: whatever position a ring / free list / counter is in by then
 }
 
 var dirMembers = map[string][]dirMember{}
@@ -132,11 +133,22 @@ func dirList(tier string) []dirMember {
 	for _, pol := range []log.BufferFullPolicy{log.BufferFullPolicyBlock, log.BufferFullPolicyDiscard, log.BufferFullPolicyDiscardOldest} {
 		for _, k := range []int{100, 99, 98, 1, 0} {
 			for _, s := range seqs {
-				out = append(out, dirMember{pol, k, s, log.InfoLevel})
+				out = append(out, dirMember{policy: pol, k: k, ops: s, hi: log.InfoLevel})
 			}
 			for _, hi := range []log.Level{log.TraceLevel, log.ErrorLevel, log.PanicLevel, log.FatalLevel} {
 				for _, s := range fseqs {
-					out = append(out, dirMember{pol, k, s, hi})
+					out = append(out, dirMember{policy: pol, k: k, ops: s, hi: hi})
+				}
+			}
+		}
+	}
+	// a logger with a PAST: 97..100 / 197 / 198 items have gone through before the buffer is filled (a ring whose head
+	// sits just before, at, or after the end of its array), every sequence of up to 3 (thorough 4) operations on a full buffer
+	for _, pol := range []log.BufferFullPolicy{log.BufferFullPolicyBlock, log.BufferFullPolicyDiscard, log.BufferFullPolicyDiscardOldest} {
+		for _, pre := range []int{97, 98, 99, 100, 101, 197, 198} {
+			for _, s := range seqs {
+				if len(s) <= depth-3 {
+					out = append(out, dirMember{policy: pol, k: 100, ops: s, hi: log.InfoLevel, pre: pre})
 				}
 			}
 		}
@@ -194,6 +206,9 @@ func dirScenario(d dirMember) *zzvrt.Scenario {
 		errS     string
 	)
 	desc := fmt.Sprintf("%s k=%d ops=%s", policyName(d.policy), d.k, d.ops)
+	if d.pre > 0 {
+		desc += fmt.Sprintf(" after %d delivered items", d.pre)
+	}
 	if strings.Contains(d.ops, "F") {
 		desc += " F=" + d.hi.Name()
 	}
@@ -212,15 +227,32 @@ func dirScenario(d dirMember) *zzvrt.Scenario {
 			zzvrt.Atomic(func() {
 				if err := l.Start(); err != nil {
 					errS = err.Error()
-					return
-				}
-				for i := 0; i < d.k; i++ {
-					l.Write([]byte(fmt.Sprintf("p%d", i)))
 				}
 			})
 			if errS != "" {
 				return
 			}
+			if d.pre > 0 {
+				// a past: d.pre items go through while the appender takes everything, 40 at a time
+				rec.tokens = -1
+				for i := 0; i < d.pre; i++ {
+					l.Write([]byte(fmt.Sprintf("q%d", i)))
+					if i%40 == 39 {
+						zzvrt.WaitQuiescent()
+					}
+				}
+				zzvrt.WaitQuiescent()
+				if len(rec.items) != d.pre || l.GetDiscardCounter() != 0 {
+					errS = fmt.Sprintf("warm-up: %d of %d items delivered, %d discarded", len(rec.items), d.pre, l.GetDiscardCounter())
+					return
+				}
+				rec.items, rec.tokens = nil, 0
+			}
+			zzvrt.Atomic(func() {
+				for i := 0; i < d.k; i++ {
+					l.Write([]byte(fmt.Sprintf("p%d", i)))
+				}
+			})
 			returned := map[string]bool{}
 			observe := func() snap {
 				r := map[string]bool{}
